@@ -454,7 +454,48 @@ fn render(obs: &[(usize, Vec<i128>)]) -> String {
 
 // forced: real threads, one event at a time in history order (hand-shake over channels)
 // free:   the same per-thread programs run concurrently without synchronisation
+/// thr.crowd m N: N threads each select mode m (given in the mode field of the line: the main thread's
+/// mode is irrelevant here), wait on a barrier until all of them hold it, and then every one must still
+/// see the mode it has set itself - in `default()` and in a rounding operation. Answers "B 1".
+pub fn crowd(m: usize, n: usize) -> String {
+    use std::sync::{Arc, Barrier};
+    let mode = crate::MODES[m & 7];
+    let barrier = Arc::new(Barrier::new(n));
+    let want = {
+        RoundingMode::set_default(mode);
+        let r = Decimal::new_raw(12345, 3).round(1);
+        RoundingMode::set_default(RoundingMode::RoundHalfEven);
+        (r.coefficient(), r.n_frac_digits())
+    };
+    let mut hs = vec![];
+    for _ in 0..n {
+        let b = barrier.clone();
+        hs.push(std::thread::Builder::new().stack_size(64 * 1024).spawn(move || {
+            RoundingMode::set_default(mode);
+            b.wait();
+            let seen = RoundingMode::default();
+            let r = Decimal::new_raw(12345, 3).round(1);
+            b.wait();
+            (seen == mode, (r.coefficient(), r.n_frac_digits()))
+        }));
+    }
+    let mut ok = true;
+    for h in hs {
+        match h {
+            Ok(j) => match j.join() {
+                Ok((s, r)) => ok &= s && r == want,
+                Err(_) => ok = false,
+            },
+            Err(_) => return "X spawn".to_string(),
+        }
+    }
+    crate::b(ok)
+}
+
 pub fn threads(mode: &str, a: &[&str]) -> String {
+    if mode == "crowd" {
+        return crowd(a[0].parse().unwrap_or(7), a[1].parse().unwrap_or(2));
+    }
     let evs = parse_events(a);
     let n = evs.iter().map(|(t, _)| *t).max().map(|m| m + 1).unwrap_or(0);
     if mode == "forced" {
